@@ -254,32 +254,36 @@ def shape_of(f, all_names):
             if not re.fullmatch(ID + r"(\.\.\.)?", a) or a.rstrip(".") not in dict(params):
                 raise Shape("argument %r of the generic function is not a parameter" % a)
         return ("Generic", m.group(1)), guards
-    # err := base.M(args) ; return T.FromXError(err)
-    m = re.fullmatch(r"err := " + B + r"\.(\w+)\((.*)\) return (.+)", body)
-    if m:
-        args = classify_args(m.group(2), params, trv)
-        return ("Forward", m.group(1), args, [wrap_of(m.group(3).strip(), "err", trv, "err")]), guards
-    # v, err :?= base.M(args) ; return W(v), E(err)
-    m = re.fullmatch(r"(" + ID + r"), err :?= " + B + r"\.(\w+)\((.*?)\) return (.+)", body)
-    if m and len(results) == 2:
-        var = m.group(1)
+    # e := base.M(args) ; return T.FromXError(e)      |  return T.FromXError(base.M(args))
+    m = re.fullmatch(r"(" + ID + r") := " + B + r"\.(\w+)\((.*)\) return (.+)", body)
+    if m and results == ["error"]:
         args = classify_args(m.group(3), params, trv)
-        rets = split_top(m.group(4))
+        return ("Forward", m.group(2), args, [wrap_of(m.group(4).strip(), m.group(1), trv, "err")]), guards
+    m = re.fullmatch(r"return " + T + r"\.(FromPathError|FromLinkError)\(" + B + r"\.(\w+)\((.*)\)\)", body)
+    if m and results == ["error"]:
+        args = classify_args(m.group(3), params, trv)
+        return ("Forward", m.group(2), args, ["RErrPath" if m.group(1) == "FromPathError" else "RErrLink"]), guards
+    # v, e :?= base.M(args) ; return W(v), E(e)
+    m = re.fullmatch(r"(" + ID + r"), (" + ID + r") :?= " + B + r"\.(\w+)\((.*?)\) return (.+)", body)
+    if m and len(results) == 2:
+        var, evar = m.group(1), m.group(2)
+        args = classify_args(m.group(4), params, trv)
+        rets = split_top(m.group(5))
         if len(rets) != 2:
-            raise Shape("return list " + m.group(4))
+            raise Shape("return list " + m.group(5))
         w = wrap_of(rets[0], var, trv, "val")
         if w == "RAW":
             w = raw_kind(results[0])
-        return ("Forward", m.group(2), args, [w, wrap_of(rets[1], "err", trv, "err")]), guards
-    # v, err :?= base.M(args) ; if err != nil { return X, E(err) } ; [f := &BasePathFile{...}] ; return W, nil
-    m = re.fullmatch(r"(" + ID + r"), err :?= " + B + r"\.(\w+)\((.*?)\) if err != nil \{ return (.+?), (.+?) \} (.*)return (.+), nil", body)
+        return ("Forward", m.group(3), args, [w, wrap_of(rets[1], evar, trv, "err")]), guards
+    # v, e :?= base.M(args) ; if e != nil { return X, E(e) } ; [f := &BasePathFile{...}] ; return W, nil
+    m = re.fullmatch(r"(" + ID + r"), (" + ID + r") :?= " + B + r"\.(\w+)\((.*?)\) if \2 != nil \{ return (.+?), (.+?) \} (.*)return (.+), nil", body)
     if m and len(results) == 2:
-        var, meth = m.group(1), m.group(2)
-        args = classify_args(m.group(3), params, trv)
-        if m.group(4) not in (var, '""', "nil"):
-            raise Shape("value returned with the error: " + m.group(4))
-        e = wrap_of(m.group(5), "err", trv, "err")
-        mid, last = m.group(6).strip(), m.group(7).strip()
+        var, evar, meth = m.group(1), m.group(2), m.group(3)
+        args = classify_args(m.group(4), params, trv)
+        if m.group(5) not in (var, '""', "nil"):
+            raise Shape("value returned with the error: " + m.group(5))
+        e = wrap_of(m.group(6), evar, trv, "err")
+        mid, last = m.group(7).strip(), m.group(8).strip()
         if mid == "":
             w = wrap_of(last, var, trv, "val")
             if w == "RAW":
@@ -292,12 +296,12 @@ def shape_of(f, all_names):
             w = "RFileWrapped"
         return ("Forward", meth, args, [w, e]), guards
     # Glob: results translated in a loop
-    m = re.fullmatch(r"(" + ID + r"), err :?= " + B + r"\.(\w+)\((.*?)\) for (\w+), (\w+) := range \1 \{ \1\[\4\] = (.+?) \} return \1, (.+)", body)
+    m = re.fullmatch(r"(" + ID + r"), (" + ID + r") :?= " + B + r"\.(\w+)\((.*?)\) for (\w+), (\w+) := range \1 \{ \1\[\5\] = (.+?) \} return \1, (.+)", body)
     if m and len(results) == 2 and results[0] == "[]string":
-        args = classify_args(m.group(3), params, trv)
-        w = wrap_of(m.group(6), m.group(5), trv, "val")
+        args = classify_args(m.group(4), params, trv)
+        w = wrap_of(m.group(7), m.group(6), trv, "val")
         w = {"RStrSafe": "RStrsSafe", "RAW": "RStrRaw"}.get(w, w)
-        return ("Forward", m.group(2), args, [w, wrap_of(m.group(7), "err", trv, "err")]), guards
+        return ("Forward", m.group(3), args, [w, wrap_of(m.group(8), m.group(2), trv, "err")]), guards
     # return base.M(args)
     m = re.fullmatch(r"return " + B + r"\.(\w+)\((.*)\)", body)
     if m:
